@@ -25,3 +25,21 @@ Example C12_cli_runs :
   exists out, cli 50 (fun _ => UOther) (mkOptions TAny TAny false 1) (Some [120; 32; 97; 32; 98]%N) [97; 32; 38; 32; 45; 98]%N = CliOk out
               /\ length (out_rows out) = 3 /\ length (out_header out) = 2.
 Proof. eexists. split; [vm_compute; reflexivity|]. split; reflexivity. Qed.
+
+(** at the level of the command line: which texts are answered.  A text (with its ordering file) is rejected with an error
+    exactly when the ordering file, the tokenizer or the parser rejects it - independently of the fuel (C12_error_iff); every
+    other text whose fixed-point binders bind names that are positive in their own bodies (in particular every text without
+    lfp / gfp) is printed once the fuel suffices: no divergence, no printer failure (C12_answers). *)
+From Rsbdd Require Import Cli.Answers Lang.Mono.
+Theorem C12_error_iff fuel uc o ordfile txt : cli fuel uc o ordfile txt = CliError <-> cli_form uc ordfile txt = None.
+Proof. exact (Answers.cli_error_iff fuel uc o ordfile txt). Qed.
+Theorem C12_answers uc o ordfile txt f : cli_form uc ordfile txt = Some f -> posfix f = true ->
+  exists fuel0, forall fuel, fuel0 <= fuel -> exists out, cli fuel uc o ordfile txt = CliOk out.
+Proof. exact (Answers.cli_answers uc o ordfile txt f). Qed.
+Print Assumptions C12_error_iff. Print Assumptions C12_answers.
+(** "lfp X # a | X" is such a text *)
+Example C12_answers_instance :
+  let uc := fun _ : N => UOther in
+  let txt := (108 :: 102 :: 112 :: 32 :: 88 :: 32 :: 35 :: 32 :: 97 :: 32 :: 124 :: 32 :: 88 :: nil)%N in
+  exists f, cli_form uc None txt = Some f /\ posfix f = true.
+Proof. eexists. split; vm_compute; reflexivity. Qed.
